@@ -28,7 +28,7 @@ ASSUMPTIONS = [
     "text/table after a FAILING execute_steps are not demanded",
     "a cleanup error at the test-run layer fails the run; at feature/rule/scenario layer it makes the owner 'error'",
 ]
-REQUIRED = {"hist.observable_result": {"quick": 50000, "thorough": 2000000}, "hist.cleanup_order_exactly_once": {"quick": 10000, "thorough": 500000},
+REQUIRED = {"run.rule_attribute_ends_with_its_rule": 1000, "hist.observable_result": {"quick": 50000, "thorough": 2000000}, "hist.cleanup_order_exactly_once": {"quick": 10000, "thorough": 500000},
             "hist.pop_shrinks_stack_even_when_raising": {"quick": 10000, "thorough": 400000}, "hist.pop_raises_iff_cleanup_raised": {"quick": 10000, "thorough": 400000},
             "run.visibility": {"quick": 3000, "thorough": 150000}, "run.cleanups_lifo_exactly_once_at_scope_end": {"quick": 800, "thorough": 40000},
             "run.raising_cleanup_fails_owner_and_run": {"quick": 60, "thorough": 3000}, "run.execute_steps_restores_text_table": {"quick": 30, "thorough": 1500},
@@ -501,6 +501,14 @@ def real_run(lab, mon, rng, case, sample=False):
             ao = getattr(context, "active_outline", None)
             mon.check("run.active_outline_ends_with_its_outline", ao is None,
                       lambda: RB.witness(case, hook=name, element=ename, active_outline=repr(ao)))
+        if name in ("after_feature", "before_feature", "after_all", "before_all"):
+            # context.rule has the life cycle "rule" (docs/context_attributes): it is gone when its rule has ended
+            seen_rule = getattr(context, "rule", None) if "rule" in context else None
+            mon.check("run.rule_attribute_ends_with_its_rule", "rule" not in context,
+                      lambda: RB.witness(case, hook=name, element=ename, rule_still_visible=repr(seen_rule)))
+        elif name in ("before_rule", "after_rule"):
+            mon.check("run.rule_attribute_ends_with_its_rule", getattr(context, "rule", None) is elem,
+                      lambda: RB.witness(case, hook=name, element=ename, rule_visible=repr(getattr(context, "rule", None))))
         act(context, name, ename)
 
     def step_plugin(state, context, text):
